@@ -35,6 +35,15 @@ struct access {
     template <class A> static int nlevels_of(const A &a) { return a.levels.size(); }
     template <class A> static bool direct_of(const A &a) { return (bool)a.levels.back().solve; }
     static bool direct(const AMG &a) { return (bool)a.levels.back().solve; }
+    // debugging aid (VERIF_DEBUG=1): which level matrices / transfer operators hold non-finite values
+    static void dump_nonfinite(const AMG &a) {
+        int l = 0;
+        for (const auto &L : a.levels) { ++l;
+            auto bad = [](const crsd *M) { long k = 0; if (M) for (ptrdiff_t q = 0; q < (ptrdiff_t)M->nnz; ++q) if (!std::isfinite(M->val[q])) ++k; return k; };
+            std::cerr << "level " << l << " n=" << (L.A ? L.A->nrows : 0) << " nnz=" << (L.A ? L.A->nnz : 0) << " nonfinite A/P/R: " << bad(L.A.get()) << "/" << bad(L.P.get()) << "/" << bad(L.R.get()) << "\n";
+            if (L.A && L.A->nrows <= 8) { for (size_t i = 0; i < L.A->nrows; ++i) { for (ptrdiff_t q = L.A->ptr[i]; q < L.A->ptr[i+1]; ++q) std::cerr << " (" << i << "," << L.A->col[q] << ")=" << L.A->val[q]; std::cerr << "\n"; } }
+        }
+    }
     static void names(const AMG &a, vr::opstream &s) {
         std::vector<int> f, u, t, A, P, R; int l = 0;
         for (const auto &L : a.levels) {
@@ -54,6 +63,8 @@ template <class A> static bool access_direct(const A &a) { return access::direct
 static vr::opstream S;
 
 struct cfg { std::string coarsening, relax; int ncycle, npre, npost, pre_cycles; unsigned ce, ml; bool dc; double over_interp;
+    int aggr_bs = 1;              // coarsening.aggr.block_size: the scalar system seen as aggr_bs unknowns per node (pointwise aggregation)
+    bool shared_unsorted = false; // hierarchy built by the non-copying constructor from a matrix whose rows are stored diagonal-first
     std::vector<std::pair<std::string, std::string>> rprm;      // non-default smoother parameters (relax.<name> = value)
     std::string rprm_text() const { std::string t; for (auto &kv : rprm) t += (t.empty() ? "" : ",") + kv.first + "=" + kv.second; return t; } };
 
@@ -64,12 +75,13 @@ static boost::property_tree::ptree ptree_of(const cfg &c) {
     p.put("coarse_enough", c.ce); p.put("max_levels", c.ml); p.put("direct_coarse", c.dc);
     if (c.coarsening == "aggregation" && c.over_interp > 0) p.put("coarsening.over_interp", c.over_interp);
     for (auto &kv : c.rprm) p.put("relax." + kv.first, kv.second);
+    if (c.aggr_bs > 1 && c.coarsening != "ruge_stuben") p.put("coarsening.aggr.block_size", c.aggr_bs);
     return p;
 }
 static bool symmetric_smoother(const std::string &r) { return r == "damped_jacobi" || r == "spai0" || r == "gauss_seidel" || r == "ilu0" || r == "iluk" || r == "ilup" || r == "chebyshev"; }
 static void put_cfg(vr::obj &o, const cfg &c, int levels, bool direct) {
     o.str("coarsening", c.coarsening).str("relax", c.relax).i("ncycle", c.ncycle).i("npre", c.npre).i("npost", c.npost).i("pre_cycles", c.pre_cycles)
-     .i("levels", levels).b("direct", direct).b("oi_gt1", c.coarsening == "aggregation" && c.over_interp > 1.0).b("symsm", symmetric_smoother(c.relax)).str("rprm", c.rprm_text()).i("nt", omp_get_max_threads());
+     .i("levels", levels).b("direct", direct).b("oi_gt1", c.coarsening == "aggregation" && c.over_interp > 1.0).b("symsm", symmetric_smoother(c.relax)).str("rprm", c.rprm_text()).i("nt", omp_get_max_threads()).i("aggr_bs", c.aggr_bs).b("shared_unsorted", c.shared_unsorted);
 }
 
 static const char *COARSENINGS[] = {"aggregation", "smoothed_aggregation", "smoothed_aggr_emin", "ruge_stuben"};
@@ -162,11 +174,25 @@ static void obs_case(std::shared_ptr<crsd> A, const cfg &c, vr::rng &g, bool mma
     // power-of-two rescaling of the matrix, moderate and extreme (a badly scaled but valid SPD M-matrix)
     static const double SCALES[] = {4.0, 9.313225746154785e-10 /* 2^-30 */, 1073741824.0 /* 2^30 */, 0.25};
     const double sf = SCALES[g.below(4)];
-    try { amg.reset(new AMG(*A, ptree_of(c))); auto A4 = std::make_shared<crsd>(*A); amgcl::backend::scale(*A4, sf); amg4.reset(new AMG(*A4, ptree_of(c))); }
+    std::shared_ptr<crsd> Au, Au4;      // kept alive: the non-copying constructor uses the caller's matrix as it is
+    try {
+        auto A4 = std::make_shared<crsd>(*A); amgcl::backend::scale(*A4, sf);
+        if (c.shared_unsorted) {
+            auto diag_first = [](std::shared_ptr<crsd> M) { auto U = std::make_shared<crsd>(*M);
+                for (size_t i = 0; i < U->nrows; ++i) for (ptrdiff_t q = U->ptr[i]; q < U->ptr[i+1]; ++q) if (U->col[q] == (ptrdiff_t)i) {
+                    for (ptrdiff_t t = q; t > U->ptr[i]; --t) { std::swap(U->col[t], U->col[t-1]); std::swap(U->val[t], U->val[t-1]); } break; }
+                return U; };
+            Au = diag_first(A); Au4 = diag_first(A4);
+            amg.reset(new AMG(Au, ptree_of(c))); amg4.reset(new AMG(Au4, ptree_of(c)));
+        } else { amg.reset(new AMG(*A, ptree_of(c))); amg4.reset(new AMG(*A4, ptree_of(c))); }
+    }
     catch (const std::exception &e) { vr::obj o; o.str("e", "Exception").str("what", e.what()).str("coarsening", c.coarsening).str("relax", c.relax); vr::emit(o.done()); return; }
     Eigen::MatrixXd Bm(n, n), Am = Eigen::MatrixXd::Zero(n, n);
     for (int i = 0; i < n; ++i) for (ptrdiff_t p = A->ptr[i]; p < A->ptr[i+1]; ++p) Am(i, A->col[p]) += A->val[p];
     vec e(n, 0.0), x(n);
+    if (vr::env_int("VERIF_DEBUG", 0)) { vec one(n, 1.0), y(n); amg->apply(one, y); bool fin = true; for (double v : y) if (!std::isfinite(v)) fin = false;
+        if (!fin) { std::cerr << "non-finite: " << c.coarsening << " " << c.relax << " bs=" << c.aggr_bs << " ce=" << c.ce << " ml=" << c.ml << " dc=" << c.dc << " n=" << n << "\n"; access::dump_nonfinite(*amg);
+            static int dumped = 0; if (!dumped++) { FILE *f = fopen("nonfinite-matrix.txt", "w"); fprintf(f, "%d\n", n); for (int i = 0; i < n; ++i) for (ptrdiff_t q = A->ptr[i]; q < A->ptr[i+1]; ++q) fprintf(f, "%d %d %.17g\n", i, (int)A->col[q], A->val[q]); fclose(f); } } }
     bool scaled = true;
     for (int j = 0; j < n; ++j) {
         e[j] = 1.0; amg->apply(e, x); for (int i = 0; i < n; ++i) Bm(i, j) = x[i];
@@ -287,6 +313,10 @@ int main(int argc, char **argv) {
             cfg c = random_cfg(g, A->nrows);
             if (r < 36) { c.coarsening = COARSENINGS[r % 4]; c.relax = RELAX[r % 9]; }
             if (r >= 36 || r % 2) random_rprm(g, c);
+            if (A->nrows % 2 == 0 && c.coarsening != "ruge_stuben" && g.coin(0.3)) c.aggr_bs = 2;
+            // rows stored diagonal-first, handed over by shared_ptr: only for components that accept unsorted rows
+            if ((c.coarsening == "aggregation" || c.coarsening == "smoothed_aggregation") &&
+                (c.relax == "gauss_seidel" || c.relax == "damped_jacobi" || c.relax == "spai0" || c.relax == "chebyshev") && g.coin(0.5)) c.shared_unsorted = true;
             c.ce = g.range(3, 12); if (g.coin(0.3)) c.ml = g.range(2, 3);
             obs_case(A, c, g, true, fam == 0 ? "grid" : "graph");
         }
